@@ -2,7 +2,11 @@
 """C12 — the offline arena plan is self-consistent and reported memory is sufficient.
 Every output model is read with the plain flatbuffer walker; the Lean checker Arena.check judges the
 OfflineMemoryAllocation plan (liveness under the operator order, overlap, alignment, scratch tensor);
-the reported figures (summary CSV, console) are compared with the extent the plan requires in Lean."""
+the reported figures (summary CSV, console) are compared with the extent the plan requires in Lean.
+Live-range stage (harness/liverange_lib.py, design.d/LiveRange.md) on the same compilations: the Lean model of
+live_range.py (Model/LiveRange.lean, theorems in Props/C12LiveRange.lean) must reproduce every LiveRangeGraph the
+scheduler and tensor allocation extract, and the Lean Spec (Spec/LiveRange.lean) judges the real arena ranges against
+every access of the high-level command streams and CPU passes."""
 import csv
 import io
 import re
@@ -10,6 +14,7 @@ import struct
 
 import common
 import fbwalk
+import liverange_lib
 import pipe_common
 import pipeline
 from common import Check, main_wrapper
@@ -42,10 +47,13 @@ def arena_line(model, align):
 
 def main():
     ck = Check("C12", "translation_validation")
-    ck.lean_stage(["VelaVerif.Props.C12"])
+    ck.lean_stage(["VelaVerif.Props.C12", "VelaVerif.Props.C12LiveRange"])
     n = 6000 if ck.thorough else 320
     profiles = ["cpu", "mixed", "pattern", "cascade", "weights", "pattern", "cpu", "lut", "pattern", "elementwise"]
-    outs = pipe_common.run_corpus(ck, n, profiles=profiles, want=("out_model",), corpus_first=False)
+    pipeline.load_vela()
+    liverange_lib.install()      # harness-side wrapping of live_range.extract_*, before the workers are forked
+    outs = pipe_common.run_corpus(ck, n, profiles=profiles, want={"out_model": True, "extra": liverange_lib.extra},
+                                  corpus_first=False)
     lines, owners, extra = [], [], []
     for o in outs:
         if "harness_exception" in o:
@@ -117,18 +125,25 @@ def main():
                          f"(network {o['idx']} {o['profile']} {o['opts']})", dict(rp, reported=reported, required=required))
     for o, ans in list(zip(owners, answers))[:3]:
         ck.sample({"network": o["desc"], "opts": o["opts"], "verdict": ans})
+    lr_stats = liverange_lib.stage(ck, outs)
     ck.finish({
+        **lr_stats,
         "programs": programs,
         "disagreements_checked": rejected,
         "evaluations": len(outs),
         "distinct_nontrivial": len(nontrivial),
         "reported_figures_checked": len(rep_reqs),
         "rule": "program = output model of one compiled (network, configuration); non-trivial when it plans >= 3 arena tensors; "
-                "distinct by (profile, index, options)",
+                "distinct by (profile, index, options). liverange_instances = calls of extract_live_ranges_from_schedule / "
+                "_from_cascaded_passes on a fresh graph, distinct by abstract schedule, non-trivial when >= 3 ranges result",
         "exhaustive": False,
     }, assumptions=["liveness is taken from the operator order of the output graph; an input dying at and an output born at the same "
                     "Ethos-U operator may share bytes (ordering inside the stream is C03's subject)",
-                    "memory-only CPU operators (RESHAPE, SQUEEZE, EXPAND_DIMS) may alias input and output exactly"])
+                    "memory-only CPU operators (RESHAPE, SQUEEZE, EXPAND_DIMS) may alias input and output exactly",
+                    "live ranges: time has the granularity of live_range.py (one index per scheduled operation outside a cascade, "
+                    "per cascade, per CPU pass; two ticks each); ordering inside one operation or one cascade is C03/C10's subject",
+                    "live ranges: tensor identities, equivalence ids and the access list of the lrspec request are read from Vela's "
+                    "own objects (high-level commands, cascaded passes) in the harness process"])
 
 
 main_wrapper(main)
